@@ -552,6 +552,9 @@ def gen_ensemble(draw, tier="quick"):
         "mean": draw(st.sampled_from([0.0, 1.3])) * 10.0 ** (uexp / 2),
         "seed": draw(st.integers(0, 2**31 - 1)), "seed2": draw(st.integers(0, 2**31 - 1)),
         "nseeds": (1500 if path == "inversion" else 120) if tier == "quick" else (6000 if path == "inversion" else 800),
+        # the documented ensemble pattern: positions given once, further realisations drawn with srf(seed=...) on the stored positions -
+        # here after the model of the object was re-oriented in place
+        "pattern": draw(st.sampled_from(["pass_pos", "pass_pos", "stored_after_reorient"])) if dim > 1 else "pass_pos",
     }
 
 
@@ -583,10 +586,20 @@ def check_ensemble(case, rec):
     def run(seed, factor):
         S = case["nseeds"] * factor
         with quiet():
-            srf = gs.SRF(model, mean=case["mean"], mode_no=N, seed=0)
+            stored = case.get("pattern") == "stored_after_reorient" and dim > 1
+            if stored:
+                m0 = build_model(dict(spec, anis=[2.5 * a for a in spec["anis"]], angles=[a + 0.8 for a in spec["angles"]]))
+                srf = gs.SRF(m0, mean=case["mean"], mode_no=N, seed=0)
+                srf.structured(axes) if axes is not None else srf(pts)
+                srf.model.anis = spec["anis"]
+                srf.model.angles = spec["angles"]
+            else:
+                srf = gs.SRF(model, mean=case["mean"], mode_no=N, seed=0)
             F = np.empty((S, n))
             for r, s in enumerate(_seeds(seed, S)):
-                if axes is not None:
+                if stored:
+                    F[r] = np.reshape(srf(seed=int(s)), -1)
+                elif axes is not None:
                     F[r] = srf.structured(axes, seed=int(s)).reshape(-1)
                 else:
                     F[r] = srf(pts, seed=int(s))
@@ -605,6 +618,8 @@ def check_ensemble(case, rec):
                 st_.z(f"{nm}[{i},{j}]", emp[i, j], C[i, j], se, bias=bias_c)
         return st_
 
+    if case.get("pattern") == "stored_after_reorient" and dim > 1:
+        rec.label("ensemble_on_stored_positions_after_reorientation")
     _confirm(run, case, rec, tags, "srf_ensemble")
     ls = model.len_rescaled
     lag_ok = bool(np.any((dist > 0.05 * ls) & (dist < 5 * ls)))
